@@ -224,6 +224,7 @@ func runC01(c *vh.Ctx) {
 	pairs = append(pairs, c01Wide(c)...)
 	pairs = append(pairs, c01CSVJoin(c)...)
 	c01Reuse(c)
+	c01ShortcutHistories(c)
 	nDirected := len(pairs)
 	rnd := c01RandomPairs(c, c.N(1200, 12000))
 	pairs = append(pairs, rnd...)
